@@ -1862,3 +1862,92 @@ def rule_G4(ctx, rid='G4'):
                'the rule %s on the fixture as expected' % ('fires' if want else 'is silent'))
     return n
 
+
+
+# ---------------------------------------------------------------------------
+# G7: configured options reach the objects that use them
+# ---------------------------------------------------------------------------
+
+def _bound_arg(call, callee, pname):
+    for k in call.keywords:
+        if k.arg == pname:
+            return k.value
+        if k.arg is None:
+            return 'kwargs'
+    params = list(callee.params)
+    if params and params[0] in ('cls', 'self'):
+        params = params[1:]
+    if pname in params:
+        i = params.index(pname)
+        if i < len(call.args) and not any(isinstance(a, ast.Starred) for a in call.args):
+            return call.args[i]
+    return None
+
+
+def rule_G7(ctx, options, rid='G7'):
+    """A tuning option the caller holds (as its own parameter or as an attribute of its object)
+    and the callee's `compute` accepts under the same name is handed on at the call: otherwise
+    the callee silently falls back to its default and the configured value (minimum number of
+    points per ellipsoid, enlargement, split threshold, ...) is not the one in force."""
+    ctx.rule(rid, 'options-handed-on: every `compute` call passes each of %s that both caller '
+             'and callee know, bound to the caller\'s own value' % sorted(options))
+    prog = ctx.program
+    res = resolver(prog)
+    held = {}      # class name -> attributes assigned anywhere in the class
+
+    def attrs_of(cls):
+        if cls.name not in held:
+            s = set()
+            for m in cls.methods.values():
+                sn = m.self_name
+                objs = {sn} if sn else set()
+                for n in walk_no_nested(m.node):
+                    # the object under construction in a classmethod: `bound = cls()`
+                    if isinstance(n, ast.Assign) and isinstance(n.value, ast.Call) and \
+                            isinstance(n.value.func, ast.Name) and n.value.func.id == 'cls' \
+                            and isinstance(n.targets[0], ast.Name):
+                        objs.add(n.targets[0].id)
+                for n in walk_no_nested(m.node):
+                    if isinstance(n, ast.Assign):
+                        for t in n.targets:
+                            if isinstance(t, ast.Attribute) and isinstance(t.value, ast.Name) \
+                                    and t.value.id in objs:
+                                s.add(t.attr)
+            held[cls.name] = s
+        return held[cls.name]
+
+    n = 0
+    for f in prog.functions.values():
+        for c in walk_no_nested(f.node):
+            if not (isinstance(c, ast.Call) and isinstance(c.func, ast.Attribute) and
+                    c.func.attr == 'compute'):
+                continue
+            callees, status = res.resolve_call(f, c)
+            if status != 'typed':
+                continue
+            for callee in callees:
+                for p in callee.params:
+                    if p not in options:
+                        continue
+                    mine = p in f.params or (f.cls is not None and f.self_name and
+                                             p in attrs_of(f.cls))
+                    if not mine:
+                        continue
+                    arg = _bound_arg(c, callee, p)
+                    n += 1
+                    key = '%s->%s:%s' % (f.qualname, callee.qualname, p)
+                    if arg == 'kwargs':
+                        ctx.ob(rid, key, True, f.where(c), 'options forwarded as **kwargs')
+                        continue
+                    ok = arg is not None and any(
+                        (isinstance(x, ast.Name) and x.id == p) or
+                        (isinstance(x, ast.Attribute) and x.attr == p)
+                        for x in ast.walk(arg))
+                    ctx.ob(rid, key, ok, f.where(c),
+                           '`%s` is handed on' % p if ok else
+                           ('`%s` does not pass `%s`: %s falls back to its default and the '
+                            'configured value is not the one in force'
+                            % (unparse(c)[:50], p, callee.qualname) if arg is None else
+                            '`%s` is bound to `%s`, not to the caller\'s own `%s`'
+                            % (p, unparse(arg)[:40], p)))
+    return n
